@@ -152,6 +152,24 @@ let () =
                  Printf.sprintf "%d:%s" (int_of_z (s.ts_cnt (z_of_int b))) (hex (s.ts_sum (z_of_int b)))))]
            done;
            Printf.printf "%s\n" (String.concat " ; " !outs)
+         | "EDIFF" ->
+           (* EDIFF kind nv {w per P wc} centres.. k x.. hasK k' hasC c'.. -> energy difference of a restraint with fixed parameters *)
+           let kind = (match next () with "harmonic" -> Harmonic | "walls" -> Walls | _ -> Linear) in
+           let nv = ni () in
+           let vars = List.init nv (fun _ ->
+               let wd = nf () in let per = nb () in let pp = nf () in let wc = nf () in
+               { v_width = wd; v_periodic = per; v_period = pp; v_wrap_center = wc }) in
+           let cen = nflist nv in let k = nf () in let xs = nflist nv in
+           let k' = if nb () then Some (nf ()) else None in
+           let c' = if nb () then Some (nflist nv) else None in
+           let z0 = z_of_int 0 in
+           let c = { c_kind = kind; c_vars = vars; c_centers0 = cen; c_chg_centers = false; c_target_centers = cen;
+                     c_k0 = k; c_chg_k = false; c_decoupling = false; c_start_k = k; c_target_k = k;
+                     c_lambda_exp = 1.0; c_lambda_sched = []; c_nsteps = z0; c_nstages = z0;
+                     c_equil = z0; c_acc_work = false; c_has_lower = false; c_has_upper = false;
+                     c_lower = cen; c_upper = cen; c_lower_k = 1.0; c_upper_k = 1.0; c_it0 = z0 } in
+           let s = { s_centers = cen; s_incr = cen; s_k = k; s_kincr = 0.0; s_stage = z0; s_first = z0; s_W = 0.0; s_FE = 0.0 } in
+           Printf.printf "%s\n" (hex (rediff fops c s xs k' c'))
          | _ -> Printf.printf "?\n")
       end
     done
